@@ -201,8 +201,12 @@ func genCase(r *core.Rand, thorough, onlyMP bool) *tcase {
 	if thorough {
 		maxDepth = 4
 	}
-	cls := r.Weighted([]int{38, 40, 4, 5, 5, 3, 3, 2})
-	// 0 json encoding, 1 msgpack encoding, 2 bare type descriptor, 3 json wrapper, 4 msgpack wrapper, 5 raw, 6 cross, 7 deep
+	cls := r.Weighted([]int{38, 38, 4, 5, 5, 3, 3, 2, 6})
+	// 0 json encoding, 1 msgpack encoding, 2 bare type descriptor, 3 json wrapper, 4 msgpack wrapper, 5 raw, 6 cross, 7 deep,
+	// 8 grammar-generated refinement extension (refgen.go)
+	if cls == 8 {
+		return refinementDoc(r)
+	}
 	if onlyMP && (cls == 0 || cls == 2 || cls == 3) {
 		return nil
 	}
